@@ -7,14 +7,17 @@
 (*    "o":[[level,time,duration,pointIdx,previousLevel,msgOK,recoverable]..] *)
 (*                      events a handler on the topic saw for this step,     *)
 (*    "oid":[id..], "nf":n, "f":[[levelField,durationField,levelTag]..],     *)
-(*    "fid":[idField..], "ftid":[idTag..]}     data forwarded downstream      *)
+(*    "fid":[idField..], "ftid":[idTag..],     data forwarded downstream      *)
+(*    "an":0|1}   (inline configurations) an inline handler got the event    *)
 (*                                                                           *)
 (* VERDICT level: every step is judged by RefJudge - the documented machine  *)
 (* (level rule, emit-iff, filters, level/time/duration of every event);      *)
-(* with flapping() the suppression of an event stays nondeterministic        *)
+(* with flapping() the suppression of a non-OK event stays nondeterministic  *)
 (* except where the documentation fixes it (no state change in the recorded  *)
-(* history => no suppression).  A line Ref cannot explain ends the trace     *)
-(* (TRACE-REJECTED).                                                         *)
+(* history => no suppression); a return to OK is always due.  A line Ref     *)
+(* cannot explain ends the trace (TRACE-REJECTED).  The one listed deviation *)
+(* (KNOWN_FINDINGS.txt: stream-flapping-recovery-withheld) is a named        *)
+(* disjunct guarded by exactly its input class; it prints KF-HIT.            *)
 (* DRIFT level: the code-shaped machine Impl runs along; the first line      *)
 (* whose output differs from Impl's prints IMPL-DRIFT (reported, never an    *)
 (* alarm).                                                                   *)
@@ -30,25 +33,33 @@ TrInit ==
     /\ l = 1 /\ HWInit
     /\ cfg = DefaultCfg /\ im = ImplInit(DefaultCfg) /\ rf = RefInit(DefaultCfg)
     /\ out = None /\ chk = ChkInit /\ clk = 0 /\ drift = FALSE /\ sent = 0
+    /\ aq = 0 /\ dl = NoDl
 
 Ln == Trace[l]
 IsEv(e) == l <= Len(Trace) /\ Ln.ev = e /\ l' = l + 1
 
-CfgOf(r) == MkCfg(r.has, r.rst, r.sco, r.scod, r.norec, r.all, r.flap, r.flo, r.fhi, r.H, r.batch)
+CfgOf(r) ==
+    [MkCfg(r.has, r.rst, r.sco, r.scod, r.norec, r.all, r.flap, r.flo, r.fhi, r.H, r.batch)
+        EXCEPT !.rk = Get(r, "rk", <<0, 0, 0>>), !.inline = Get(r, "inline", FALSE)]
 
 TrReset ==
     /\ IsEv("Reset")
     /\ cfg' = CfgOf(Ln.setup)
     /\ im' = ImplInit(cfg') /\ rf' = RefInit(cfg')
     /\ out' = None /\ chk' = ChkInit /\ clk' = 0 /\ drift' = FALSE /\ sent' = 0
+    /\ aq' = 0 /\ dl' = NoDl
+    /\ ConfigOK(cfg')
 
 (* The forwarded data is a second view of the same event: forwarded iff an   *)
 (* event was sent, every forwarded point carries the event's level (field    *)
 (* and tag), duration and ID (field and tag).  The event itself carries the  *)
 (* ID, the level the handlers last saw for this ID as its previous level,    *)
 (* the default message "<id> is <LEVEL>" and recoverable = ~noRecoveries.    *)
+(* An inline handler never gets an event the named topic's handlers do not   *)
+(* get (the reverse happens when the inline handlers' queue is full).        *)
 WellFormed(ln, n) ==
     /\ Len(ln.o) <= 1
+    /\ (Get(ln, "an", 0) = 1 => ln.o # <<>>)
     /\ ln.nf = Len(ln.o)
     /\ \A i \in DOMAIN ln.oid : ln.oid[i] = ln.id
     /\ \A i \in DOMAIN ln.fid : ln.fid[i] = ln.id /\ ln.ftid[i] = ln.id
@@ -75,10 +86,16 @@ TrStep ==
                     j   == RefJudge(cfg, rf, pts, tmx, obs)
                     i   == IF cfg.batch THEN ImplBatch(cfg, im, pts, tmx) ELSE ImplStream(cfg, im, pts[1])
                     wf  == WellFormed(ln, n)
-                    ok  == wf /\ j.chk.level /\ j.chk.emit /\ j.chk.carries
+                    \* the listed deviation, guarded by exactly its input class (needs the
+                    \* code-shaped flapping flag, so only while Impl still explains the trace)
+                    kf  == ~drift /\ StreamFlappingRecoveryWithheld(cfg, i.st, obs, j.recovery)
+                    ok  == wf /\ j.chk.level /\ j.chk.carries
+                           /\ (j.chk.emit \/ (kf /\ PrintT(<<"KF-HIT", "stream-flapping-recovery-withheld">>)))
                 IN  /\ \/ ok
                        \/ ~ok /\ PrintT(<<"C01-REJECT", l, "wellformed", wf, j.chk, "ref-level", j.st.lvl>>) /\ FALSE
-                    /\ rf' = j.st /\ chk' = j.chk /\ out' = obs /\ im' = i.st
+                    /\ rf' = j.st /\ chk' = [j.chk EXCEPT !.kf = kf] /\ out' = obs /\ im' = i.st
+                    /\ aq' = aq
+                    /\ dl' = [anon |-> IF Get(ln, "an", 0) = 1 THEN "queued" ELSE "none", named |-> obs # None]
                     /\ drift' = (drift \/ i.out # obs)
                     /\ (~drift /\ i.out # obs) => PrintT(<<"IMPL-DRIFT", l, "impl", i.out, "observed", obs>>)
                     /\ clk' = ln.tmax
@@ -91,12 +108,12 @@ TrRestart ==
     /\ IsEv("Restart")
     /\ CanRestart(cfg)
     /\ im' = ImplRestore(cfg, im)
-    /\ UNCHANGED <<cfg, rf, out, chk, clk, drift, sent>>
+    /\ UNCHANGED <<cfg, rf, out, chk, clk, drift, sent, aq, dl>>
 
 TrNext == TrReset \/ TrStep \/ TrRestart
 TrSpec == TrInit /\ [][TrNext]_tvars
 
-Verdict == chk.level /\ chk.emit /\ chk.carries
+Verdict == chk.level /\ (chk.emit \/ chk.kf) /\ chk.carries
 HW == HWMark(l)
 Accepted == HWAccepted
 =============================================================================
